@@ -19,6 +19,7 @@ package main
 // interface registry on every run and sent to the model.
 
 import (
+	"github.com/cosmos/gogoproto/proto"
 	"bytes"
 	"crypto/ecdsa"
 	"crypto/sha256"
@@ -1688,6 +1689,54 @@ func (h *c02) eipClasses() {
 	h.r.Extra["amino_sign_bytes_field_insensitive"] = insensitive
 	if len(insensitive) > 0 {
 		h.r.Fail("C02/amino/sign-bytes-ignore-a-field", "legacy-amino sign bytes are the same for two messages that differ in a field: "+strings.Join(insensitive, " ; "), nil)
+	}
+	// ValidateBasic is run on the very object that is routed (and, for proposals, stored): it must only LOOK at it. For
+	// every message type and every proposal content type: the JSON of the filled object before and after ValidateBasic.
+	var rewritten []string
+	checkPure := func(url string, pm proto.Message) {
+		vb, ok := pm.(interface{ ValidateBasic() error })
+		if !ok {
+			return
+		}
+		func() {
+			defer func() { recover() }()
+			h.fill(reflect.ValueOf(pm), 0)
+		}()
+		snap := func() (out string) {
+			defer func() {
+				if r := recover(); r != nil {
+					out = "panic"
+				}
+			}()
+			bz, err := json.Marshal(pm)
+			if err != nil {
+				return "err:" + err.Error()
+			}
+			return string(bz)
+		}
+		before := snap()
+		func() {
+			defer func() { recover() }()
+			_ = vb.ValidateBasic()
+		}()
+		h.r.Count("oracle:C02/validate-basic/pure")
+		if after := snap(); after != before && before != "panic" {
+			rewritten = append(rewritten, url)
+		}
+	}
+	for _, iface := range []string{sdk.MsgInterfaceProtoName, "kira.gov.Content"} {
+		for _, url := range reg.ListImplementations(iface) {
+			if !strings.Contains(url, "/kira.") {
+				continue
+			}
+			if pm, err := reg.Resolve(url); err == nil {
+				checkPure(url, pm)
+			}
+		}
+	}
+	sort.Strings(rewritten)
+	if len(rewritten) > 0 {
+		h.r.Fail("C02/validate-basic/rewrites-the-message", "ValidateBasic changes the object it validates (what is executed / stored is no longer what was signed): "+strings.Join(rewritten, " ; "), nil)
 	}
 	ekeys, ecoll := collisions(eg)
 	akeys, acoll := collisions(ag)
